@@ -57,6 +57,7 @@ class Interp:
         self.steps = []
         self.cfg = {"serializer": serializer}
         self.handlers = []
+        self.bad_self = []
         self.pending_sub = []       # (request id, [H...], topic)
         self.model = {}             # sid -> [H] attached, in order
         self.inflight = {}          # sid -> unsubscribe request id
@@ -155,20 +156,29 @@ class Interp:
         from autobahn.wamp.types import SubscribeOptions
         from autobahn import wamp
         before = len(self.w.t.sent)
-        if kind == "object":
+        if kind in ("object", "object-empty"):
             hs = [H(len(self.handlers) + k, "method", behaviour if k == 0 else "return") for k in range(2)]
             interp = self
 
             class Obj:
                 @wamp.subscribe(topic)
-                def on_a(self_, *args, **kwargs):
-                    return interp.make_fn(hs[0])(*args, **kwargs)
+                def on_a(*args, **kwargs):
+                    if not args or args[0] is not obj:
+                        interp.bad_self.append(("on_a", brief(list(args[:2]))))
+                        raise TypeError("on_a() missing 1 required positional argument: 'self'")
+                    return interp.make_fn(hs[0])(*args[1:], **kwargs)
 
                 @wamp.subscribe(topic + ".second")
-                def on_b(self_, *args, **kwargs):
-                    return interp.make_fn(hs[1])(*args, **kwargs)
+                def on_b(*args, **kwargs):
+                    if not args or args[0] is not obj:
+                        interp.bad_self.append(("on_b", brief(list(args[:2]))))
+                        raise TypeError("on_b() missing 1 required positional argument: 'self'")
+                    return interp.make_fn(hs[1])(*args[1:], **kwargs)
+            if kind == "object-empty":
+                Obj.__len__ = lambda self_: 0       # an application object that is an (empty) container: still the handlers' self
+            obj = Obj()
             try:
-                fut = self.w.call(lambda: self.s.subscribe(Obj()))
+                fut = self.w.call(lambda: self.s.subscribe(obj))
             except Exception as e:
                 self.fail("subscribe-raised|" + exc_key(e), repr(e))
                 return
@@ -398,6 +408,10 @@ class Interp:
         if err is not None:
             self.fail("event-dispatch-raised|" + exc_key(err), "%r escaped onMessage (handlers: %r)" % (err, [(h.hid, h.behaviour) for h in expected]))
             return
+        if self.bad_self:
+            self.fail("handler-self-differs", "method of a subscribed object invoked without that object as self: %r" % (self.bad_self[:2],))
+            self.bad_self = []
+            return
         for h2, sid2, state in self.spawned:
             if state["err"] is not None:
                 self.fail("subscribed-raised|" + exc_key(state["err"]), "SUBSCRIBED for a subscribe() made inside an event handler: %r" % (state["err"],))
@@ -499,7 +513,7 @@ def make_machine_factory(col):
                 holder["steps"] = self.i.steps
                 self.i.apply(step)
 
-            @rule(topic=topics, kind=st.sampled_from(["plain", "plain", "details", "details_arg", "object", "object-opts"]),
+            @rule(topic=topics, kind=st.sampled_from(["plain", "plain", "details", "details_arg", "object", "object-opts", "object-empty"]),
                   behaviour=st.sampled_from(["return", "return", "raise", "pending", "unsub-self", "unsub-next", "unsub-on-subscribed", "subscribe-in-handler"]))
             def subscribe(self, topic, kind, behaviour):
                 self.ap("subscribe", topic, kind, behaviour)
